@@ -39,8 +39,7 @@ func (e TypeConversionMethods) ValueToTimestamp(value ldvalue.Value) (time.Time,
 	case ldvalue.StringType:
 		return parseRFC3339TimeUTC(value.StringValue())
 	case ldvalue.NumberType:
-		unixMillis := int64(value.Float64Value())
-		return time.Unix(0, unixMillis*int64(time.Millisecond)).UTC(), true
+		return unixMillisToUtcTime(value.Float64Value()), true
 	}
 	return time.Time{}, false
 }
